@@ -22,6 +22,10 @@ def run_case(c):
         m, o, crit, d = eng.make_private(module=model, optimizer=opt, criterion=nn.CrossEntropyLoss(reduction='mean'), data_loader=dl,
                                          noise_multiplier=c['sigma'], max_grad_norm=c['C'], grad_sample_mode='ghost', poisson_sampling=False,
                                          target_unclipped_quantile=c['q'], clipbound_learning_rate=c['lr'], min_clipbound=c['minc'], max_clipbound=c['maxc'])
+        sched = None
+        if c.get('gamma') is not None:
+            from opacus.schedulers import ExponentialNoise
+            sched = ExponentialNoise(o, gamma=c['gamma'])
         rec = []
         orig = torch.normal
 
@@ -39,6 +43,8 @@ def run_case(c):
                 loss.backward()
                 norms = [float(v) for v in m.per_sample_gradient_norms.flatten().tolist()] if hasattr(m, 'per_sample_gradient_norms') else None
                 o.step()
+                if sched is not None:
+                    sched.step()
                 out['steps'].append({'n': len(xb), 'C0': C0, 'C1': float(o.max_grad_norm), 'nm': float(o.noise_multiplier), 'rec': list(rec), 'norms': norms,
                                      'ebs': float(o.expected_batch_size), 'hist': [list(h) for h in eng.accountant.history]})
         finally:
